@@ -5,10 +5,10 @@
 using namespace rx;
 
 struct Spec { int kind; bool write, w16; uint16_t seq; uint32_t addr, n; Bytes payload; int code; uint32_t vaddr; int meta; int optx = -1; int dmg = 0; bool muted = false; };   // kind 0 request 1 response 2 meta; muted: while this frame is processed the instance's sink is the library's own sink_null (a listen-only device) - the memory access happens all the same; dmg != 0: the frame is damaged on the way (see damaged()); optx >= 0: checksum option bits to use instead of the transport's canonical ones
-struct Case { bool serial, mem16, chunk_src, chunk_snk; uint32_t extra; std::vector<Spec> frames; bool nest = false; };   // nest: while a response is being handed to the sink, the sink's driver makes a second protocol instance emit an error response of its own   // extra == 0: the receive block is exactly as large as the largest frame/answer needs
+struct Case { bool serial, mem16, chunk_src, chunk_snk; uint32_t extra; std::vector<Spec> frames; bool nest = false; int half = 0; };   // half 1: only a write accessor is attached, the read side is the library's own regp_void_read* (a write-only memory); 2: the other way round   // nest: while a response is being handed to the sink, the sink's driver makes a second protocol instance emit an error response of its own   // extra == 0: the receive block is exactly as large as the largest frame/answer needs
 
 static std::string ser_case(const Case &c) {
-    std::string s = vp::fmt("session %d %d %d %d %u %d\n", (int)c.serial, (int)c.mem16, (int)c.chunk_src, (int)c.chunk_snk, c.extra, (int)c.nest);
+    std::string s = vp::fmt("session %d %d %d %d %u %d %d\n", (int)c.serial, (int)c.mem16, (int)c.chunk_src, (int)c.chunk_snk, c.extra, (int)c.nest, c.half);
     for (auto &f : c.frames) s += vp::fmt("frame %d %d %d %u %u %u %d %u %d %s %d %d %d\n", f.kind, (int)f.write, (int)f.w16, f.seq, f.addr, f.n, f.code, f.vaddr, f.meta, f.payload.empty() ? "-" : vp::hex(f.payload).c_str(), f.optx, f.dmg, (int)f.muted);
     return s;
 }
@@ -42,6 +42,8 @@ static std::string run_case(const Case &c, std::string &msg, bool classify) {
     }
     size_t block = frame_struct_size() + need + c.extra;
     Session S(c.serial, c.mem16, block, c.chunk_src, c.chunk_snk);
+    if (c.half == 1 && c.mem16) regp_use_memory16(&S.p, regp_void_read16, vp_write16);   // (the library exports placeholders for 16-bit memories only)
+    if (c.half == 2 && c.mem16) regp_use_memory16(&S.p, vp_read16, regp_void_write16);
     be().reset(); be().salt = c.extra * 7 + 1;
     // the second instance of a nested session: it has received a request and will answer it with ERANGE(0x5a5a5a5a) from inside S's sink driver
     std::unique_ptr<Session> N; RPMaybeFrame nmf; memset(&nmf, 0, sizeof nmf);
@@ -93,10 +95,20 @@ static std::string run_case(const Case &c, std::string &msg, bool classify) {
         Bytes out = S.take_output();
         size_t ncalls = be().log.size() - calls0;
         bool width_ok = sp.w16 == c.mem16;
+        bool voided = c.mem16 && ((c.half == 1 && !sp.write) || (c.half == 2 && sp.write));   // this direction is served by the library's placeholder accessor: EUNMAPPED at the request's address, the attached accessor is not involved
         std::string key;
         if (sp.kind != 0) {
             if (ncalls) { msg = tag + "a response/meta frame caused a memory access"; key = "non-request:memory-access"; }
             else if (!out.empty()) { msg = tag + "a response/meta frame was answered"; key = "non-request:answered"; }
+        } else if (voided && width_ok) {
+            if (ncalls) { msg = tag + "the direction without an attached accessor reached the attached one"; key = "half-memory:wrong-accessor-called"; }
+            else if (!sp.muted) {
+                std::vector<Bytes> frames; rp::Frame got;
+                if (!rp::split_wire(c.serial, out, frames) || frames.size() != 1) { msg = tag + vp::fmt("%zu frames in the reply", frames.size()); key = "half-memory:no-reply"; }
+                else if (rp::decode(frames[0], got) != rp::V_OK) { msg = tag + "reply is not a valid frame"; key = "half-memory:reply-invalid"; }
+                else { rp::Frame want = rp::make_response(c.serial, fr, rp::C_EUNMAPPED, c.mem16, {}, sp.addr); std::string d = same_fields(got, want); if (!d.empty()) { msg = tag + "reply of the placeholder accessor differs in " + d + ": " + rp::show(got); key = "half-memory:reply-" + d; } }
+            }
+            if (classify && key.empty()) vp::cls("request-for-the-direction-without-accessor");
         } else if (sp.muted) {
             // nobody listens: the request is executed exactly once all the same (reads may have side effects in the back-end)
             if (!width_ok) { if (ncalls) { msg = tag + "word-size mismatch but memory was accessed"; key = "wordsize:memory-access"; } }
@@ -148,6 +160,7 @@ static rc::Gen<Case> genCase() {
         c.serial = *rc::gen::arbitrary<bool>(); c.mem16 = *rc::gen::arbitrary<bool>(); c.chunk_src = *rc::gen::arbitrary<bool>(); c.chunk_snk = *rc::gen::arbitrary<bool>();
         c.extra = *rc::gen::weightedOneOf<uint32_t>({{4, rc::gen::just<uint32_t>(0)}, {2, vprc::uni<uint32_t>(0, 3)}, {4, vprc::uni<uint32_t>(0, 40)}, {1, rc::gen::element<uint32_t>(65300u, 65436u, 65500u, 65535u, 65536u, 70000u, 131000u, 131072u)}});   // the last group: allocator blocks beyond 64 KiB, sized so that the room for a read answer lies just across a multiple of 2^16
         c.nest = *rc::gen::weightedElement<bool>({{4, false}, {1, true}});
+        c.half = *rc::gen::weightedElement<int>({{6, 0}, {1, 1}, {1, 2}});
         size_t nf = *vprc::uni<size_t>(1, 8);
         bool mem16 = c.mem16;
         c.frames = *rc::gen::container<std::vector<Spec>>(nf, rc::gen::exec([mem16]() {
@@ -187,7 +200,7 @@ static bool replay(const std::string &text) {
     Case c; bool have = false;
     for (auto &l : vp::lines(text)) {
         auto w = vp::split(l);
-        if (w.size() >= 6 && w[0] == "session") { c.serial = atoi(w[1].c_str()); c.mem16 = atoi(w[2].c_str()); c.chunk_src = atoi(w[3].c_str()); c.chunk_snk = atoi(w[4].c_str()); c.extra = (uint32_t)strtoul(w[5].c_str(), 0, 10); c.nest = w.size() >= 7 && atoi(w[6].c_str()); have = true; }
+        if (w.size() >= 6 && w[0] == "session") { c.serial = atoi(w[1].c_str()); c.mem16 = atoi(w[2].c_str()); c.chunk_src = atoi(w[3].c_str()); c.chunk_snk = atoi(w[4].c_str()); c.extra = (uint32_t)strtoul(w[5].c_str(), 0, 10); c.nest = w.size() >= 7 && atoi(w[6].c_str()); c.half = w.size() >= 8 ? atoi(w[7].c_str()) : 0; have = true; }
         else if (w.size() >= 11 && w[0] == "frame") c.frames.push_back({atoi(w[1].c_str()), (bool)atoi(w[2].c_str()), (bool)atoi(w[3].c_str()), (uint16_t)strtoul(w[4].c_str(), 0, 10), (uint32_t)strtoul(w[5].c_str(), 0, 10),
                                                                       (uint32_t)strtoul(w[6].c_str(), 0, 10), w[10] == "-" ? Bytes() : vp::unhex(w[10]), atoi(w[7].c_str()), (uint32_t)strtoul(w[8].c_str(), 0, 10), atoi(w[9].c_str()), w.size() >= 12 ? atoi(w[11].c_str()) : -1, w.size() >= 13 ? atoi(w[12].c_str()) : 0, w.size() >= 14 && atoi(w[13].c_str()) != 0});
     }
